@@ -15,7 +15,7 @@ func init() {
 		ID:    "C09",
 		Title: "Ordered results are globally sorted; limit/offset is a window of them",
 		Decides: "every merge-heap / batch-sort comparator on the ordered-query paths induces exactly the order it must (key, direction flag, tie-breaks), over every weak ordering of its operands: iter/sort containerHeap, stream/sidx blockCursorHeap, sidx QueryResponseHeap, trace sidxStreamHeap, model.StreamResultHeap, the part/block merge heaps of measure, stream, trace and sidx, the batch sorters, SeriesList; " +
-			"k-way mergers restore the heap (Fix/Pop) after advancing the top cursor before reading it again; in the distributed measure plan the limit handed to data nodes is offset+limit.",
+			"k-way mergers restore the heap (Fix/Pop) after advancing the top cursor before reading it again; in the distributed measure plan the limit handed to data nodes is offset+limit; the sidx cursor builder records a payload as seen only for elements inside the key range; the time window of an index-sorted stream batch offers every document to both its minimum and its maximum.",
 		NotDecided: "that each input cursor is itself sorted, duplicates, early termination, exactly-once delivery of secondary-index entries, the composition of per-node windows into the global window.",
 		Technique:  "finite-domain abstract interpretation of comparator syntax trees; CFG must-follow for heap discipline; SSA def-use of the pushed-down limit",
 		Run:        runC09,
@@ -48,6 +48,26 @@ func runC09(c *core.Ctx) {
 	r.cmpLex(rule, sibX.pkg, "(*partMergeIterHeap).Less", ij, "lex(seriesID↑, min key↑)", kspec{Match: "seriesID"}, kspec{Match: "minKey"})
 	r.cmpLex(rule, sibX.pkg, "(*blockMetadata).lessByKey", ro, "lex(min key↑, max key↑, seriesID↑, data offset↑)", kspec{Match: "minKey"}, kspec{Match: "maxKey"}, kspec{Match: "seriesID"}, kspec{Match: "dataBlock.offset"})
 	r.Floor(rule, 20)
+	if r.Tier == "thorough" {
+		// discovery: comparators in the anchored packages that have no spec here (a warning for the
+		// maintainer of the rule tables, never a violation)
+		covered := map[string]bool{}
+		for _, o := range r.Obs {
+			if o.Rule == rule {
+				covered[strings.SplitN(o.Construct, " ≡", 2)[0]] = true
+			}
+		}
+		n := 0
+		for _, f := range r.P.ModuleFuncs("banyand/measure", "banyand/stream", "banyand/trace", "banyand/internal/sidx", "pkg/iter/sort", "pkg/query/model", "pkg/query/logical", "banyand/dquery", "pkg/index/inverted") {
+			nm := ssax.FuncName(f)
+			if !(strings.HasSuffix(nm, ").Less") || strings.HasSuffix(nm, ").less")) || covered[nm] || strings.Contains(r.fpos(f), "benchmark_") || strings.Contains(r.fpos(f), "migration_") {
+				continue
+			}
+			n++
+			r.Note("unlisted-candidate comparator (no spec; not checked): %s at %s", nm, r.fpos(f))
+		}
+		r.Stat("unlisted_comparators", n)
+	}
 
 	// the window pushed to the sources is offset+limit, never limit alone
 	rule = "c09.pushdown-window"
@@ -76,6 +96,18 @@ func runC09(c *core.Ctx) {
 		}
 	}
 	r.Floor(rule, 6)
+
+	// the sidx cursor builder records a payload as seen only for elements inside the requested key range
+	if f := r.fn("c09.seen-only-in-range", sibX.pkg, "(*blockCursorBuilder).appendElement"); f != nil {
+		r.onlyWhenCall("c09.seen-only-in-range", f, call("(*"+sibX.pkg+".blockCursorBuilder).markSeen"), "(*"+sibX.pkg+".blockCursorBuilder).keyInRange", true, nil,
+			"an element outside the key range must not be recorded as seen: a later in-range element carrying the same payload would be dropped as its duplicate, so a matching entry is not returned")
+	}
+	// the time window of an index-sorted batch: min and max are independent running extrema
+	if f := r.fn("c09.sorted-batch-window", sibS.pkg, "(*idxResult).loadSortingData"); f != nil {
+		why := "the window [minTimestamp,maxTimestamp] selects the parts and blocks scanned for the batch; a document that raises the maximum and is not offered to the minimum (the first one always is both) leaves the window short and the rows outside it are missing from the ordered result"
+		r.accumulatorsIndependent("c09.sorted-batch-window", f, "maxTimestamp", "minTimestamp", why)
+		r.accumulatorsIndependent("c09.sorted-batch-window", f, "minTimestamp", "maxTimestamp", why)
+	}
 }
 
 func flowsFromCallSuffix(v ssa.Value, suffix string, depth int) bool {
